@@ -185,7 +185,17 @@ def run_ast_case(case, res, prop):
                     except Exception:
                         pass
         try:
-            sim = load(text)
+            if ri % 3 == 2:
+                # the assembler's own public entry point on an architectural state that already holds a LONGER
+                # program: afterwards the instruction memory holds exactly the new program
+                from architecture_simulator.isa.riscv.riscv_parser import RiscvParser
+
+                sim = make_riscv("single")
+                RiscvParser().parse("\n".join(["addi x1, x1, 1"] * (len(exp) + 1 + ri % 7)), sim.state)
+                RiscvParser().parse(text, sim.state)
+                res.count("assembled_over_longer_program")
+            else:
+                sim = load(text)
         except Exception as e:
             res.violation("C04", "load-failed", "well-formed program failed to load (%r); rendering seed %d:\n%s" % (e, ri, text[:600]), case)
             return
@@ -362,6 +372,31 @@ def run_data_case(case, res):
             res.violation("C05", "name-index-store", "memory after running differs at %s" % [(hex(a), gm.get(a, 0), mem.get(a, 0)) for a in d[:4]], case)
             return
         finals.append((rr, gm))
+    crossing = any("var" in s_ and s_["k"] in ("ldv", "stv") and (A.var_addr(vars_, s_["var"], s_["idx"]) % 4) + (LOADS[s_["m"]][0] if s_["k"] == "ldv" else STORES[s_["m"]]) > 4 for s_ in stmts)
+    if case.get("dcache") and ds is None and finals and not crossing:  # a cache rejects word-crossing accesses by design (C03)
+        # the same program behind a data cache (the assembler preloads .data through the cache system):
+        # declared values and name[i] addressing must not depend on it, in either mode
+        from . import pipe as _pipe
+
+        for mode in ("single", "five"):
+            sim = make_riscv(mode, dcache=case["dcache"])
+            try:
+                sim.load_program(A.Renderer(case["renders"][0]).program(ast, data_first=case["renders"][1] % 2 == 0))
+                n = 0
+                while not sim.is_done() and n < 3000:
+                    sim.step()
+                    n += 1
+            except Exception as e:
+                res.violation("C05", "run-failed", "with data cache %r (%s): %r" % (case["dcache"], mode, e), case)
+                return
+            rr = real_regs(sim)
+            gm = _pipe.mem_image(sim, list(mem))
+            bad = [(r, hex(rr[r]), hex(x[r])) for r in range(32) if rr[r] != x[r] and r not in dont_care]
+            badm = sorted(a for a in set(gm) | set(mem) if gm.get(a, 0) != mem.get(a, 0))
+            res.count("data_programs_behind_cache")
+            if bad or badm:
+                res.violation("C05", "name-index-effect", "%s mode behind data cache %r: registers (reg, real, documented) %s, logical memory differs at %s" % (mode, case["dcache"], bad[:4], [(hex(a), gm.get(a, 0), mem.get(a, 0)) for a in badm[:4]]), case)
+                return
     res.count("segment_orders_compared")
     types = {d["type"] for d in data}
     if len(types) >= 3 and any(s.get("idx") for s in stmts):
@@ -393,6 +428,8 @@ def gen_data_case(rng):
     case = {"kind": "data", "data": data, "stmts": stmts, "renders": [rng.getrandbits(30) + 1, rng.getrandbits(30) + 1]}
     if ds is not None:
         case["data_start"] = ds
+    elif rng.random() < 0.4:
+        case["dcache"] = {"ib": rng.randint(0, 2), "bb": rng.randint(0, 3), "assoc": rng.choice([1, 2, 4]), "policy": rng.choice(["lru", "plru"]), "wt": rng.random() < 0.4, "pen": rng.choice([0, 2])}
     return case
 
 
